@@ -114,9 +114,12 @@ Definition verify_file_x (H : bytes -> id) (size_of : id -> option nat)
 Definition x_needs_restore (x : xres) : bool := match x with XNil => true | XRes r => needs_restore r end.
 Definition x_is_err (x : xres) : bool := match x with XNil => false | XRes r => is_err r end.
 
+Inductive overwrite := OwAlways | OwIfChanged | OwIfNewer | OwNever.   (* res.opts.Overwrite *)
+
 (* ---- VerifyFiles ---- *)
 (* one node of the snapshot tree in traversal order, with what the harness finds at its target path *)
-Record entry := mkEntry { e_loc : bytes; e_isfile : bool; e_node : node; e_obj : fobj }.
+(* e_mteq: the file's mtime equals the node's (it does right after a restore) *)
+Record entry := mkEntry { e_loc : bytes; e_isfile : bool; e_node : node; e_obj : fobj; e_mteq : bool }.
 
 Definition filelist := list (bytes * bool).   (* res.fileList: location -> metadataOnly *)
 
@@ -135,9 +138,14 @@ Definition jobs (fl : filelist) (es : list entry) : list entry := filter (is_job
 Section WithHash2.
 Variable H : bytes -> id.
 Variable size_of : id -> option nat.
+Variable ow : overwrite.              (* the restorer's overwrite option *)
+
+(* the trustMtime argument VerifyFiles passes to verifyFile: the constant false, whatever the overwrite option
+   (the size+mtime shortcut belongs to the overwrite check of RestoreTo only) *)
+Definition verify_trust (o : overwrite) : bool := false.
 
 Definition job_ok (e : entry) : bool :=
-  negb (is_err (verify_file H size_of true false false (e_obj e) (e_node e))).
+  negb (is_err (verify_file H size_of true (verify_trust ow) (e_mteq e) (e_obj e) (e_node e))).
 
 (* Error callback returns the error (default): first failing job ends the run *)
 Fixpoint run_abort (js : list entry) (cnt : N) : bool * N :=
@@ -156,7 +164,6 @@ End WithHash2.
 
 (* ---- RestoreTo's tracking decision for one regular, non-hardlinked file (visitNode of the first pass +
         withOverwriteCheck): None = not tracked (skipped), Some metadataOnly ---- *)
-Inductive overwrite := OwAlways | OwIfChanged | OwIfNewer | OwNever.
 
 Section WithHash3.
 Variable H : bytes -> id.
@@ -216,7 +223,7 @@ Fixpoint tab_hash (ht : list (bytes * id)) (b : bytes) : id :=
 Inductive case :=
 | CFile (bt : blobtab) (ht : list (bytes * id)) (hl fast trust mteq : bool) (o : fobj) (n : node)
         (obs : xres) (obs_nr : bool)             (* verifyFile result; the real NeedsRestore() of that state *)
-| CAll (bt : blobtab) (ht : list (bytes * id)) (fl : filelist) (es : list entry)
+| CAll (bt : blobtab) (ht : list (bytes * id)) (ow : overwrite) (fl : filelist) (es : list entry)
        (obs_ok : bool) (obs_cnt : N)            (* abort mode: err == nil, count *)
        (obs_rep : list bytes) (obs_cnt2 : N)    (* collect mode: reported locations in traversal order, count *)
 | CTrack (bt : blobtab) (ht : list (bytes * id)) (ow : overwrite) (newer mteq : bool) (o : fobj) (n : node)
@@ -246,7 +253,7 @@ Definition oracle_code (c : case) : nat :=
         if fast then (if Bool.eqb (negb (x_is_err obs)) (intact bt o n) then 0 else 2)
         else (if Bool.eqb (negb nr) (intact bt o n) then 0 else 3)
       else 0
-  | CAll bt _ fl es ok cnt rep _ =>
+  | CAll bt _ _ fl es ok cnt rep _ =>
       let js := jobs fl es in
       if forallb (fun e => wf_nodeb bt (e_node e)) js then
         if negb (Bool.eqb ok (forallb (e_intact bt) js)) then 4
@@ -277,9 +284,9 @@ Definition model_agrees (c : case) : bool :=
   | CFile bt ht hl fast trust mteq o n obs nr =>
       let m := verify_file_x (tab_hash ht) (lookup_size bt) hl fast trust mteq o n in
       xres_eqb obs m && Bool.eqb nr (x_needs_restore m)
-  | CAll bt ht fl es ok cnt rep cnt2 =>
-      let a := verify_files_abort (tab_hash ht) (lookup_size bt) fl es in
-      let k := verify_files_collect (tab_hash ht) (lookup_size bt) fl es in
+  | CAll bt ht ow fl es ok cnt rep cnt2 =>
+      let a := verify_files_abort (tab_hash ht) (lookup_size bt) ow fl es in
+      let k := verify_files_collect (tab_hash ht) (lookup_size bt) ow fl es in
       Bool.eqb ok (fst a) && (if ok then N.eqb cnt (snd a) else true)
       && list_eqb bytes_eqb rep (fst k) && N.eqb cnt2 (snd k)
   | CTrack bt ht ow newer mteq o n obs =>
